@@ -1,2 +1,62 @@
-(* Props/C18.v — property C18 (placeholder while the proofs are being written). *)
-From Tevec Require Import Base.Prelude Model.Parse Model.ParseDT.
+(* Props/C18.v — property C18: parsers are total and round-trip with their formatters.
+   Statements only; proofs in Proofs/Parse.v and Proofs/ParseDT.v.                              *)
+From Coq Require Import List ZArith Lia.
+From Tevec Require Import Base.Prelude Model.Parse Spec.DurationC18 Proofs.Parse.
+Import ListNotations.
+Local Open Scope Z_scope.
+
+(* (1) TimeDelta::parse is total: for EVERY string (any list of code points) the scanner neither
+       panics (the slice `&duration[start..i]` is always in bounds, nothing is unwrapped, no
+       arithmetic overflows) nor runs out of fuel (the loops terminate).                          *)
+Theorem C18_total :
+  forall s : str, (forall k, parse s <> PPanic k) /\ parse s <> PFuel.
+Proof. exact parse_total. Qed.
+
+(* the invariant behind (1), for every reachable scanner state *)
+Theorem C18_scanner_invariant :
+  forall fuel s rest pos start a,
+    (start <= pos)%nat -> (pos + length rest = length s)%nat -> (length rest < fuel)%nat ->
+    match scan fuel s rest pos start a with PPanic _ | PFuel => False | _ => True end.
+Proof. exact scan_safe. Qed.
+
+(* (2) every well-formed duration string — a sequence of terms  sign? digit+ unit  with unit in
+       ns us ms s m h d w mo y — whose numbers, products and running sums stay in range parses
+       to the sum of its terms: months and years into the month count, the rest into the fixed
+       part.                                                                                      *)
+Theorem C18_wellformed :
+  forall ts : list term,
+    Forall wf_term ts -> Forall term_in_range ts -> partial_sums_in_range ts -> total_in_range ts ->
+    parse (render_terms ts) = POk (sumf t_months ts) (fixed_ns ts).
+Proof. exact wellformed_sum. Qed.
+
+(* non-vacuity: "2y1mo-3d5h-2m3s" (the doc-comment example) satisfies every premise of (2) *)
+Definition ex_terms : list term :=
+  [ mk_term None [50] Uy; mk_term None [49] Umo; mk_term (Some true) [51] Ud;
+    mk_term None [53] Uh; mk_term (Some true) [50] Um; mk_term (Some false) [51] Us ].
+
+Example C18_wellformed_example :
+  Forall wf_term ex_terms /\ Forall term_in_range ex_terms /\ partial_sums_in_range ex_terms /\
+  total_in_range ex_terms /\
+  render_terms ex_terms = [50;121; 49;109;111; 45;51;100; 53;104; 45;50;109; 43;51;115] /\
+  parse (render_terms ex_terms) = POk 25 (-241317000000000).
+Proof.
+  split; [repeat constructor; discriminate|].
+  split; [repeat constructor|].
+  split; [intros k Hk; do 7 (destruct k as [|k]; [vm_compute; auto|]); cbn in Hk; lia|].
+  split; [vm_compute; intuition discriminate|].
+  split; vm_compute; reflexivity.
+Qed.
+
+(* the strings that used to panic (unwrap of the failed i64 parse, overflow) are errors now *)
+Example C18_former_panics_are_errors :
+  parse [45; 45; 49; 100] = PErr /\                       (* "--1d" *)
+  parse [97; 49; 100] = PErr /\                           (* "a1d"  *)
+  parse [233; 49; 100] = PErr /\                          (* "é1d"  *)
+  parse [57;57;57;57;57;57;57;57;57;57;57;57;57;57;57;57;57;57;57;57;100] = PErr /\  (* 20 digits *)
+  parse [50;48;48;48;48;48;48;48;48;48;48;48;48;48;48;119] = PErr /\                 (* 2e14 w *)
+  parse [52;50;57;52;57;54;55;50;57;55;109;111] = PErr.   (* "4294967297mo" *)
+Proof. vm_compute. repeat split. Qed.
+
+Print Assumptions C18_total.
+Print Assumptions C18_scanner_invariant.
+Print Assumptions C18_wellformed.
